@@ -149,6 +149,15 @@ CLAIMED.update({
     ),
 })
 
+CLAIMED.update({
+    "C13": (
+        "loop summariser: each pkg/slice function's FoIR normal form is reduced by idiom rules (accumulate/guarded accumulate/spread/early-return scan/fold/iter/set-guarded accumulate/copy-then-sort/preconditions) to a closed list term compared with its specification term; slice.foi agreement (FOI)",
+        "All 29 functions are short loops in eight idioms, so the summary is a closed form of the loop valid for all inputs in the domain (all lengths, duplicates, function arguments): order preservation, Take/Skip index ranges, positional Zip with equal lengths, first-match TryFind, left-to-right Forall/Forany, left Fold, first-occurrence Distinct, sort-a-copy.",
+        "Trusts slices.SortFunc/cmp.Compare and Go's append/range semantics. A body outside the idioms is undecided (this also fires on result-preserving rewrites).",
+        "DESIGN.md §3 C13",
+    ),
+})
+
 NOT_APPLICABLE = {
 }
 
